@@ -166,8 +166,10 @@ class Photon:
 
         if self._array is not None:
             self._array += other
+        elif isinstance(other, xr.DataArray):
+            self.array_3d = other
         else:
-            self._array = other
+            self.array = other
         return self
 
     def __add__(self, other: Union[np.ndarray, "xr.DataArray"]) -> Self:
@@ -182,8 +184,10 @@ class Photon:
 
         if self._array is not None:
             self._array += other
+        elif isinstance(other, xr.DataArray):
+            self.array_3d = other
         else:
-            self._array = other
+            self.array = other
         return self
 
     def _get_uninitialized_2d_error_message(self) -> str:
